@@ -330,6 +330,50 @@ Proof.
 Qed.
 Print Assumptions C03_depth_map_path.
 
+(* ================================================================== 5. several writes, several images *)
+(* writing the same array any number of times, through any front ends: every write behaves as the first one
+   and the caller's array is left as it was.  In particular the k-th dump equals the first. *)
+Theorem C03_repeated_writes : forall cast steps m,
+  write_seq cast steps m = (map (fun a => write_api cast a m) steps, m).
+Proof. exact write_seq_spec. Qed.
+Print Assumptions C03_repeated_writes.
+
+Theorem C03_kth_dump_is_first : forall cast steps m k a,
+  nth_error steps k = Some a -> plain a ->
+  nth_error (fst (write_seq cast steps m)) k = Some (Written (dump m)) /\ snd (write_seq cast steps m) = m.
+Proof.
+  intros cast steps m k a E P. rewrite write_seq_spec. cbn [fst snd]. split; [|reflexivity].
+  rewrite nth_error_map, E. cbn. f_equal. apply write_plain; destruct P as [->|[->|[->| ->]]]; discriminate.
+Qed.
+Print Assumptions C03_kth_dump_is_first.
+
+(* the image ids listed from a feature directory / tar are the names that were written *)
+Theorem C03_listing_inverts_member : forall kind name,
+  In kind kinds -> good_rel name = true ->
+  id_of_member (ext_of kind) (tar_member kind name) = Some name.
+Proof.
+  intros kind name K G. destruct (kind_good kind K) as [_ Ge].
+  unfold tar_member. rewrite tar_member_gen_spec by assumption. apply id_of_member_spec.
+Qed.
+Print Assumptions C03_listing_inverts_member.
+
+(* a second image with a different (normalised) name never replaces the file of the first one,
+   in a directory (full paths) as in a tar archive (member names) *)
+Theorem C03_second_image_kept : forall kind root ftype n1 n2 b1 b2,
+  In kind kinds -> good_root root = true -> good_rel ftype = true -> no_slashb ftype = true ->
+  good_rel n1 = true -> good_rel n2 = true -> n1 <> n2 ->
+  fs_read (feature_path kind root ftype n1)
+          (fs_write (feature_path kind root ftype n2) b2 (fs_write (feature_path kind root ftype n1) b1 [])) = Some b1
+  /\ fs_read (tar_member kind n1) (fs_write (tar_member kind n2) b2 (fs_write (tar_member kind n1) b1 [])) = Some b1.
+Proof.
+  intros kind root ftype n1 n2 b1 b2 K R T S G1 G2 N. destruct (kind_good kind K) as [Gd Ge]. split.
+  - rewrite fs_read_other, fs_read_same; [reflexivity|].
+    intros E. apply C03_feature_path_injective in E; auto. tauto.
+  - rewrite fs_read_other, fs_read_same; [reflexivity|].
+    unfold tar_member. rewrite !tar_member_gen_spec by assumption. intros E. apply sapp_inv_tail in E. auto.
+Qed.
+Print Assumptions C03_second_image_kept.
+
 (* ================================================================== non-vacuity and the repaired defect *)
 Local Open Scope N_scope.
 
@@ -374,3 +418,15 @@ Example C03_pair_collision :
   good_rel "d.overlapping/e" = true /\ good_rel "f" = true /\ good_rel "d" = true /\ good_rel "e.overlapping/f" = true
   /\ matches_path "r" "t" "d.overlapping/e" "f" = matches_path "r" "t" "d" "e.overlapping/f".
 Proof. vm_compute. repeat split. Qed.
+
+(* a writer that byte-swaps the caller's big-endian buffer in place is excluded by C03_repeated_writes:
+   under that variant the second write of [[1.0, 2.0]] dumps other bytes and the caller's array is changed *)
+Lemma C03_inplace_swap_refuted :
+  exists m, wf_mem m = true /\
+    let (rs, m') := run_seq (write_step_inplace (fun _ n => n) true) [AKeypoints; ADescriptors] m in
+    nth_error rs 0%nat = Some (Written (dump m)) /\ nth_error rs 1%nat <> Some (Written (dump m)) /\
+    snd (run_seq (write_step_inplace (fun _ n => n) true) [AKeypoints] m) <> m.
+Proof.
+  exists {| m_dtype := F32; m_shape := [1; 2]; m_elems := [1065353216; 1073741824]; m_big := true; m_layout := LContig |}.
+  split; [vm_compute; reflexivity|]. vm_compute. repeat split; try reflexivity; intros E; discriminate E.
+Qed.
